@@ -240,11 +240,43 @@ def run_entry(entry, n, seed, acc, tier):
     core.hyp_collect(case(), chk, n, seed, acc, case_timeout=120)
 
 
+def run_mixed(n, seed, acc):
+    """interchanges whose functional groups come from different maps: the converter changes maps at every GS"""
+    from hypothesis import strategies as st
+
+    @st.composite
+    def case(draw):
+        ch = docgen.HypChooser(draw)
+        dl = ch.choice([('~', '*', ':', '^'), ('~', '*', ':', '^'), ('|', '!', '\\', '`')])
+        try:
+            doc = c02.build_mixed(ch, flavor=ch.choice(['markup', 'plain']), values_avoid='~*:^' + ''.join(dl))
+        except docgen.GenFail:
+            return {'skip': 'genfail'}
+        c = make_case(doc, dl, acc)
+        c['meta']['file'] = 'mixed'
+        c['meta']['parts'] = [e['file'] for e in doc.parts]
+        c['notused'] = []
+        return c
+
+    def chk(c):
+        if 'skip' in c:
+            return core.Outcome(classes=['skipped:' + c['skip']])
+        out = check_case(c)
+        out.classes.append('mixed-maps')
+        return out
+
+    core.hyp_collect(case(), chk, n, seed, acc, case_timeout=120)
+
+
 def shards(tier, seed):
-    return [{'entry': e, 'i': i, 'n': 200 if tier == 'thorough' else 15} for i, e in enumerate(genfaulty.entries(exclude_ack=False))]
+    return [{'entry': e, 'i': i, 'n': 200 if tier == 'thorough' else 15} for i, e in enumerate(genfaulty.entries(exclude_ack=False))] + \
+        [{'mixed': True, 'i': 200 + i, 'n': 80 if tier == 'thorough' else 10} for i in range(8)]
 
 
 def run_shard(spec, seed, tier):
     acc = core.Acc()
+    if spec.get('mixed'):
+        run_mixed(spec['n'], seed * 1000 + spec['i'], acc)
+        return acc
     run_entry(spec['entry'], spec['n'], seed * 1000 + spec['i'], acc, tier)
     return acc
